@@ -223,10 +223,14 @@ func (t *Tokenizer) tokenizeBuffer(buf []byte, last bool) error {
 			}
 		case numComma:
 			t.handleNum()
-			if 0 < len(t.starts) && t.starts[len(t.starts)-1] == '{' {
-				t.mode = keyMap
+			if 0 < len(t.starts) {
+				if t.starts[len(t.starts)-1] == '{' {
+					t.mode = keyMap
+				} else {
+					t.mode = commaMap
+				}
 			} else {
-				t.mode = commaMap
+				return t.newError(off, "unexpected comma")
 			}
 		case strSlash:
 			t.mode = escMap
